@@ -1,0 +1,29 @@
+//! Verification hook (feature `isographlabs_isograph_verif` only): direct access to the query
+//! text printer for the correspondence harness.  Nothing here changes behaviour.
+use common_lang_types::QueryOperationName;
+use isograph_lang_types::VariableDeclaration;
+use isograph_schema::{Format, WrappedMergedSelectionMap};
+
+use crate::GraphQLOperationKind;
+
+/// `generate_query_text` exactly as the network protocol calls it, without a database.
+pub fn verif_query_text(
+    operation_kind: GraphQLOperationKind,
+    query_name: QueryOperationName,
+    selection_map: &WrappedMergedSelectionMap,
+    query_variables: &[VariableDeclaration],
+    compact: bool,
+) -> String {
+    crate::query_text::generate_query_text(
+        operation_kind,
+        query_name,
+        selection_map,
+        query_variables.iter(),
+        if compact {
+            Format::Compact
+        } else {
+            Format::Pretty
+        },
+    )
+    .0
+}
